@@ -320,6 +320,28 @@ pub fn run(ctx: &Ctx, rep: &mut Report) {
                 let over = Ep { valid: false, name: "token.transfer_from", named: b.clone(), counterparty: Some(a.clone()), owner: Some(owner.clone()),
                                 call: { let (s, f) = (b1.clone(), a1.clone()); mk(Rc::new(move |cl, _| flat(cl.try_transfer_from(&s, &f, &s, &301)))) }, other_args: vec![] };
                 matrix(rep, &mut u, &over, &stranger, "allowance-exceeded,recipient=spender");
+                // an approval that has lapsed (its ledger entry still exists) authorises nothing, not even
+                // a spend of exactly its whole amount
+                {
+                    let ck = u.checkpoint();
+                    let d = u.principal();
+                    let (t, a2, d2) = (tk.clone(), a.clone(), d.clone());
+                    let short = u.seq() + 3;
+                    u.setup(move |env| InterchainTokenClient::new(env, &t).approve(&a2, &d2, &77, &short));
+                    u.skip_events();
+                    u.advance(6);
+                    for (i, amount) in [77i128, 1].iter().enumerate() {
+                        let (s, f, am) = (d.clone(), a.clone(), *amount);
+                        let ep = Ep { valid: false, name: "token.transfer_from", named: d.clone(), counterparty: Some(a.clone()), owner: Some(owner.clone()),
+                                      call: mk(Rc::new(move |cl, _| flat(cl.try_transfer_from(&s, &f, &s, &am)))), other_args: vec![] };
+                        matrix(rep, &mut u, &ep, &stranger, ["lapsed-allowance,whole-amount", "lapsed-allowance,part"][i]);
+                        let (s, f, am) = (d.clone(), a.clone(), *amount);
+                        let ep = Ep { valid: false, name: "token.burn_from", named: d.clone(), counterparty: Some(a.clone()), owner: Some(owner.clone()),
+                                      call: mk(Rc::new(move |cl, _| flat(cl.try_burn_from(&s, &f, &am)))), other_args: vec![] };
+                        matrix(rep, &mut u, &ep, &stranger, ["lapsed-allowance,whole-amount", "lapsed-allowance,part"][i]);
+                    }
+                    u.restore(&ck);
+                }
                 // an allowance granted to the owner is the owner's, not the office's: after a hand-over
                 // the new owner has none
                 {
